@@ -156,10 +156,17 @@ func (p *Path) formatOperand(fr *frame, verb byte, arg value) []*Term {
 			ok := p.tc.And(p.inRange(b, 0x20, 0x7e), p.tc.And(p.tc.Ne(b, p.tc.BV(8, '"')), p.tc.Ne(b, p.tc.BV(8, '\\'))))
 			plain = p.tc.And(plain, ok)
 		}
-		if !p.branch(plain) {
-			p.end(stCut, "%q of a symbolic string needing escapes (outside bound)")
-		}
 		out := []*Term{p.tc.BV(8, '"')}
+		if !p.branch(plain) {
+			// needs escapes: the quoted text is approximated by unconstrained bytes of
+			// the unescaped length (only ever used inside error messages)
+			p.note("approximation: %q of a symbolic string that needs escaping rendered as unconstrained bytes")
+			p.decSeq++
+			for i := range s.b {
+				out = append(out, p.tc.Var(fmt.Sprintf("$quoted%d.%d", p.decSeq, i), 8))
+			}
+			return append(out, p.tc.BV(8, '"'))
+		}
 		out = append(out, s.b...)
 		return append(out, p.tc.BV(8, '"'))
 	}
